@@ -12,13 +12,21 @@ func ZvC03_S2_History() {
 	kind := vrt.Choice(2)
 	comp := zvS2Comp(kind)
 	h := NewHeap(comp)
-	L := vrt.Pick(3, 5)
+	L := vrt.Pick(4, 6)
 	steps := vrt.Choice(L) + 1
 	q := vrt.Int() // probe value: cnt tracks how many q the model holds
 	cnt := 0
 	size := 0
 	for s := 0; s < steps; s++ {
-		switch vrt.Choice(4) {
+		switch vrt.Choice(6) {
+		case 4:
+			// Convert to the other comparator: from now on it decides what precedes what
+			kind = 1 - kind
+			comp = zvS2Comp(kind)
+			h.Convert(comp)
+		case 5:
+			h.Clear()
+			cnt, size = 0, 0
 		case 0:
 			v := vrt.Int()
 			h.Push(v)
